@@ -158,7 +158,12 @@ VH_MAIN
 #ifdef VH_CONCRETE_MASK
                 /* larger shapes: most entries are pinned to fixed generic values (through an assumption, not a literal:
                    cbmc would fold literal arithmetic in IEEE double), a few stay symbolic */
-                if ((VH_CONCRETE_MASK >> (i + j * N)) & 1UL) vh_assume(aval[nnz] == (double)(2 + ((i * 7 + j * 3) % 5)) + (double)(((i + 2) * (j + 3)) % 7 + 1) / 8.0 + (i == j ? 6.0 : 0.0));
+                if ((VH_CONCRETE_MASK >> (i + j * N)) & 1UL) {
+#ifndef VH_CBMC   /* native replay: a pinned entry takes its pinned value whatever the replay file / random generator supplied */
+                    aval[nnz] = (double)(2 + ((i * 7 + j * 3) % 5)) + (double)(((i + 2) * (j + 3)) % 7 + 1) / 8.0 + (i == j ? 6.0 : 0.0);
+#endif
+                    vh_assume(aval[nnz] == (double)(2 + ((i * 7 + j * 3) % 5)) + (double)(((i + 2) * (j + 3)) % 7 + 1) / 8.0 + (i == j ? 6.0 : 0.0));
+                }
 #endif
                 Ad[i][j] = aval[nnz]; ++nnz; }
         }
